@@ -386,6 +386,121 @@ def apply_xform(t, pre, chain, axis, inplace):
     return t
 
 
+IDENT_OPS = ["filter_list_rev", "filter_tuple_rot", "filter_array_shuf", "filter_set", "filter_frozenset", "filter_dict",
+             "filter_gen", "filter_repeat", "filter_pred", "filter_keysview", "filter_objarray", "filter_table_order",
+             "filter_invert_empty", "filter_invert_pred_false", "sort_order_same", "update_ids_identity",
+             "update_ids_empty_map", "transpose_twice", "head_all", "transform_identity", "partition_one", "add_md_empty",
+             "del_md_none", "remove_empty", "subsample_all_ids", "align_to_twin", "copy"]
+# (concat([]) is NOT in the list: concat re-orders the other axis into sorted order by design, see C10)
+
+
+def ident_route(base, ops, axis, inplace, k):
+    return "ident|%s|%s|%s|%d|%d" % (base, ops, axis, 1 if inplace else 0, k)
+
+
+def apply_ident(t, op, axis, inplace, k):
+    """one operation that must leave the content as it is (selection of everything, reordering into the current
+    order, renaming IDs to themselves, ...); `k` varies orders and containers"""
+    import random as _random
+    import numpy as np
+    ids = [x for x in t.ids(axis=axis)]
+    r = _random.Random(k)
+    rev = ids[::-1]
+    rot = ids[1:] + ids[:1]
+    shuf = list(ids)
+    r.shuffle(shuf)
+    inpl = bool(inplace)
+
+    def flt(keep, **kw):
+        res = t.filter(keep, axis=axis, inplace=inpl, **kw)
+        return t if inpl else res
+    if op == "filter_list_rev":
+        return flt(list(rev))
+    if op == "filter_tuple_rot":
+        return flt(tuple(rot))
+    if op == "filter_array_shuf":
+        return flt(np.array(shuf))
+    if op == "filter_objarray":
+        return flt(np.array(rev, dtype=object))
+    if op == "filter_set":
+        return flt(set(ids))
+    if op == "filter_frozenset":
+        return flt(frozenset(ids))
+    if op == "filter_dict":
+        return flt({i: None for i in shuf})
+    if op == "filter_keysview":
+        return flt({i: None for i in rev}.keys())
+    if op == "filter_gen":
+        return flt(i for i in shuf)
+    if op == "filter_repeat":
+        return flt(rev + shuf[:2] + rot[:1])
+    if op == "filter_table_order":
+        return flt(list(ids))
+    if op == "filter_pred":
+        return flt(lambda v, i, m: True)
+    if op == "filter_invert_empty":
+        return flt([], invert=True)
+    if op == "filter_invert_pred_false":
+        return flt(lambda v, i, m: False, invert=True)
+    if op == "sort_order_same":
+        res = t.sort_order([ids, tuple(ids), np.array(ids)][k % 3], axis=axis)
+        res.type = t.type
+        return res
+    if op == "update_ids_identity":
+        res = t.update_ids({i: i for i in shuf}, axis=axis, strict=bool(k % 2), inplace=inpl)
+        return t if inpl else res
+    if op == "update_ids_empty_map":
+        res = t.update_ids({}, axis=axis, strict=False, inplace=inpl)
+        return t if inpl else res
+    if op == "transpose_twice":
+        res = t.transpose().transpose()
+        res.type = t.type
+        return res
+    if op == "head_all":
+        return t.head(n=t.shape[0] + (k % 2), m=t.shape[1] + (k % 3))
+    if op == "transform_identity":
+        res = t.transform(lambda v, i, m: v, axis=axis, inplace=inpl)
+        return t if inpl else res
+    if op == "partition_one":
+        parts = list(t.partition(lambda i, m: "all", axis=axis))
+        if len(parts) != 1:
+            raise Skip()
+        res = parts[0][1]
+        res.type = t.type
+        return res
+    if op == "add_md_empty":
+        t.add_metadata({}, axis=axis)
+        return t
+    if op == "del_md_none":
+        t.del_metadata(keys=[], axis=axis)
+        return t
+    if op == "remove_empty":
+        d = t.matrix_data.toarray()
+        if (abs(d).sum(axis=0) == 0).any() or (abs(d).sum(axis=1) == 0).any():
+            raise Skip()
+        res = t.remove_empty(axis="whole", inplace=inpl)
+        return t if inpl else res
+    if op == "concat_nothing":
+        res = t.concat([], axis=axis)
+        res.type = t.type
+        return res
+    if op == "subsample_all_ids":
+        # subsample is specified for counts: it drops vectors whose sum is not positive
+        d = t.matrix_data.toarray()
+        if (d < 0).any() or (d.sum(axis=0) <= 0).any() or (d.sum(axis=1) <= 0).any():
+            raise Skip()
+        res = t.subsample(len(ids), axis=axis, by_id=True, seed=k)
+        res.type = t.type
+        return res
+    if op == "align_to_twin":
+        res = t.align_to(t.copy(), axis=["both", "detect", axis][k % 3])
+        res.type = t.type
+        return res
+    if op == "copy":
+        return t.copy()
+    raise ValueError(op)
+
+
 def reorder_keys(md, which):
     """the same entries with the key insertion order reversed on the IDs in `which` (never the first ID)"""
     out = []
@@ -451,6 +566,18 @@ def build_operand(spec, route, need_model=True):
             # is the model's input, the identity fields stay those of the construction
             mi = dict(mi, layout=flat_rowmajor(src.matrix_data), fmt=fmt_label(src.matrix_data), ctor=False)
         return src, mi, facts
+    if route.startswith("ident|"):
+        _, base_route, ops, axis, inpl, k = route.split("|")
+        t, mi, facts = build_operand(spec, base_route, need_model=True)
+        if t.shape[0] == 0 or t.shape[1] == 0:
+            raise Skip()
+        for j, op in enumerate(ops.split("+")):
+            t = apply_ident(t, op, axis, int(inpl), int(k) + j)
+        if not need_model:
+            return t, None, facts
+        # identity fields stay those of the base route; the representation reached is the model's input
+        mi = dict(mi, layout=flat_rowmajor(t.matrix_data), fmt=fmt_label(t.matrix_data), ctor=False)
+        return t, mi, {}
     if route.startswith("xform:"):
         _, base_route, pre, chain, axis, inpl = route.split(":")
         t = build_operand(spec, base_route, need_model=False)[0]
@@ -1107,6 +1234,10 @@ def _run_pair(ctx, case, tags=()):
     if same != (case["expect"] == "equal") and (case["route_a"].startswith("aliased:") or
                                                  str(case["route_b"]).startswith("aliased:")):
         ctx.fail(case, "aliased-source-changed", tags, detail=detail)
+    elif same != (case["expect"] == "equal") and (case["route_a"].startswith("ident|") or
+                                                   str(case["route_b"]).startswith("ident|")):
+        # an operation that must be the identity on content changed it (IDs, order, values or metadata)
+        ctx.fail(case, "identity-history-changed-content", tags, detail=detail)
     elif same != (case["expect"] == "equal"):
         ctx.diverge(case, "the routes did not produce the intended %s content" % case["expect"], tags, detail=detail)
     return r
@@ -1607,6 +1738,36 @@ def run(ctx):
         st = gen_steps(rng, rng.choice([0, 1, 2]))
         ctx.count("xform=%s" % chain)
         run_pair(ctx, pair_case(spec, ra, None, rb, st, "equal", exports=(k % 15 == 0)), ("xform", "chain=" + chain))
+
+    # 4d3. histories that must be the identity on content — selection of everything with the IDs given in every
+    #      order and container kind, reordering into the current order, renaming IDs to themselves, transposing
+    #      twice, ... — against an untouched, independently built twin
+    for k in range(170 if quick else 1500):
+        spec = gen_spec(rng, quick, nonuniform=(k % 4 == 0))
+        if k % 3 == 0:
+            spec["omd"] = core.gen_md(rng, spec["obs"], kind="mixed")
+            spec["smd"] = core.gen_md(rng, spec["samp"], kind="text")
+        axis = ["observation", "sample"][k % 2]
+        ops = IDENT_OPS[k % len(IDENT_OPS)]
+        if k % 5 == 4:
+            ops = ops + "+" + IDENT_OPS[(k * 7 + 3) % len(IDENT_OPS)]
+        base = rng.choice(["dense", "csc", "csr_unsorted", "sort_samp_once" if False else "lol_coo_zeros"])
+        ra = ident_route(base, ops, axis, (k // 2) % 2 == 0, k)
+        rb = rng.choice(["dense", "csr", "csc"])
+        st = gen_steps(rng, rng.choice([0, 0, 1]))
+        ctx.count("identity-op=%s" % ops.split("+")[0])
+        if k % 2:
+            run_pair(ctx, pair_case(spec, ra, spec, rb, st, "equal", exports=(k % 17 == 0)), ("identity", "ops=" + ops))
+        else:
+            run_pair(ctx, pair_case(spec, rb, spec, ra, st, "equal", exports=(k % 17 == 0)), ("identity", "ops=" + ops))
+    # idempotent operations applied once more
+    for k in range(16 if quick else 200):
+        spec = core.gen_spec(rng, max_n=4, max_m=4, classes=("smallcount", "count"), density=0.8)
+        axis = ["observation", "sample"][k % 2]
+        chain = ["shift0+pa", "shift1+rank"][k % 2]
+        again = chain + "+" + chain.split("+")[-1]
+        run_pair(ctx, pair_case(spec, xform_route("dense", 0, again, axis, k % 4 < 2), spec,
+                                xform_route("csc", 0, chain, axis, False), [], "equal"), ("identity", "idempotent"))
 
     # 4e. metadata dicts that differ only in key insertion order on some IDs: equal tables, equal exports
     for k in range(50 if quick else 600):
